@@ -24,6 +24,10 @@ from edgegraph.traversal import helpers
 
 from egverif import byvalue, canon, graphs, histories, oracles, stepmon, zoo
 
+import copyreg
+
+copyreg.pickle(zoo.Handle, zoo.reduce_handle)  # what an application does at start-up: after the library was imported
+
 RULE = (
     "cases = (object graph, root, pickle protocol 0-5, dumps|dump(file), loader pickle|dill, same|fresh interpreter, "
     "NEIGHBOR_CACHING on/off at dump and at load time, warm caches keyed by importable filters).  Graphs: end states of "
@@ -90,6 +94,12 @@ def decorate(rng, objs, mode):
             v.level = zoo.Level(rng.randrange(3))
             v.colour = rng.choice(list(zoo.Colour))
             v.rank = [zoo.Rank(rng.randrange(2)), rng.randrange(2), "idx", zoo.Tag("idx")]
+        if rng.random() < 0.2:
+            # a value of a type that is picklable only through the reducer the application registered with copyreg
+            # (see run(): registered after the library was imported)
+            v.handle = zoo.Handle(rng.choice(["h1", "h2"]))
+            if rng.random() < 0.5:
+                v.handles = {"spare": [zoo.Handle("h3"), v.handle]}
     if mode == "big":
         # size thresholds of the pickle framing layer (64 KiB) and of small-int / short-string fast paths
         vs[0].text = "x" * 65536
